@@ -1558,11 +1558,27 @@ fn compile_expr(
             let rhs_expr = compile_expr(rhs, genv, gensym, diagnostics);
 
             match resolution {
-                tast::BinaryResolution::Builtin => core::Expr::EBinary {
-                    op: *op,
-                    lhs: Box::new(lhs_expr),
-                    rhs: Box::new(rhs_expr),
-                    ty: ty.clone(),
+                // `&&` and `||` are short-circuit: the right operand is evaluated only when the
+                // left one does not decide the result.
+                tast::BinaryResolution::Builtin => match op {
+                    common_defs::BinaryOp::And => core::Expr::EIf {
+                        cond: Box::new(lhs_expr),
+                        then_branch: Box::new(rhs_expr),
+                        else_branch: Box::new(core::ebool(false)),
+                        ty: ty.clone(),
+                    },
+                    common_defs::BinaryOp::Or => core::Expr::EIf {
+                        cond: Box::new(lhs_expr),
+                        then_branch: Box::new(core::ebool(true)),
+                        else_branch: Box::new(rhs_expr),
+                        ty: ty.clone(),
+                    },
+                    _ => core::Expr::EBinary {
+                        op: *op,
+                        lhs: Box::new(lhs_expr),
+                        rhs: Box::new(rhs_expr),
+                        ty: ty.clone(),
+                    },
                 },
                 tast::BinaryResolution::Overloaded { trait_name } => {
                     let method = op.method_name();
